@@ -44,6 +44,60 @@ pub struct Case {
 
 type Key = [u8; 9];
 
+/// Alphabet of the enumerated arm (16 symbols over 4 non-zero keys).
+fn enum_op(sym: u64) -> Op {
+    match sym {
+        0..=3 => Op::Touch(sym as usize),
+        4..=7 => Op::Remove(sym as usize - 4),
+        8 => Op::EvictTail,
+        9 => Op::EvictToTarget { bytes: 1, avg: 1 },
+        10 => Op::EvictToTarget { bytes: 2, avg: 1 },
+        11 => Op::Bump,
+        12 => Op::Checkpoint,
+        13 => Op::Load(LoadSel::Latest),
+        14 => Op::RunCycle { limit: 1, avg: 1 },
+        _ => Op::Restart { limit: u64::MAX / 4, avg: 1 },
+    }
+}
+const ENUM_SYMS: u64 = 16;
+/// Longest history length enumerated completely in a tier.
+fn enum_max_len(tier: Tier) -> u32 {
+    match tier {
+        Tier::Quick => 3,
+        Tier::Thorough => 5,
+    }
+}
+/// Number of enumerated cases: 3 capacities x sum_{l=1..L} 16^l.
+pub fn enum_total(tier: Tier) -> u64 {
+    3 * (1..=enum_max_len(tier)).map(|l| ENUM_SYMS.pow(l)).sum::<u64>()
+}
+fn enumerated_case(index: u64, tier: Tier) -> Option<Case> {
+    if index >= enum_total(tier) {
+        return None;
+    }
+    let capacity = (index % 3) as u32 + 1;
+    let mut rest = index / 3;
+    let mut len = 1u32;
+    while rest >= ENUM_SYMS.pow(len) {
+        rest -= ENUM_SYMS.pow(len);
+        len += 1;
+    }
+    let mut ops = Vec::with_capacity(len as usize);
+    for _ in 0..len {
+        ops.push(enum_op(rest % ENUM_SYMS));
+        rest /= ENUM_SYMS;
+    }
+    let keys = (0..4u8)
+        .map(|i| {
+            let mut k = [0u8; 9];
+            k[0] = 0xA0 + i;
+            k[8] = i + 1;
+            hex::encode(k)
+        })
+        .collect();
+    Some(Case { capacity, keys, ops })
+}
+
 fn parse_key(s: &str) -> Key {
     let mut k = [0u8; 9];
     if let Ok(b) = hex::decode(s) {
@@ -140,7 +194,7 @@ impl Scenario for Lru {
         "exploration"
     }
     fn rule(&self) -> &'static str {
-        "Seeded histories (1-30 ops, mostly 3-12) over touch/remove/evict_tail/evict_to_target/bump_generation/checkpoint_to_disk/load_from_disk/run_cycle/shutdown/reset/restart on the real LruManager with real checkpoint files in a per-run tmpfs sandbox; capacity 1-4 (a few up to 64), 4-6 keys, the all-zero key in ~30% of runs. After EVERY op len/contains/for_each_entry order are compared with a textbook LRU. A run is non-trivial if it executed >= 2 state-changing ops; distinct = distinct hash of (config, ops, observed results)."
+        "Enumerated arm first: run indices 0..N of every batch are, in order and independent of the seed, ALL histories of length 1..L (quick L=3: 13,104 cases; thorough L=5: 3,355,440 cases) over a 16-symbol alphabet {touch k0-k3, remove k0-k3, evict_tail, evict_to_target(1 or 2 entries), bump_generation, checkpoint, load latest, run_cycle, restart} for capacities 1, 2, 3 and 4 non-zero keys (counter enumerated_histories). Then seeded histories (1-30 ops, mostly 3-12) over touch/remove/evict_tail/evict_to_target/bump_generation/checkpoint_to_disk/load_from_disk/run_cycle/shutdown/reset/restart on the real LruManager with real checkpoint files in a per-run tmpfs sandbox; capacity 1-4 (a few up to 64), 4-6 keys, the all-zero key in ~30% of runs. After EVERY op len/contains/for_each_entry order are compared with a textbook LRU. A run is non-trivial if it executed >= 2 state-changing ops; distinct = distinct hash of (config, ops, observed results)."
     }
     fn assumptions(&self) -> Vec<&'static str> {
         vec![
@@ -164,7 +218,12 @@ impl Scenario for Lru {
         }
     }
 
-    fn generate(&self, rng: &mut Rng, _tier: Tier) -> Case {
+    fn generate(&self, rng: &mut Rng, tier: Tier) -> Case {
+        // Enumerated arm: the first ENUM(tier) run indices of a batch are the histories of the small
+        // space the property's quantifier names (capacities 1-3, 4 keys), in order, independent of the seed.
+        if let Some(c) = enumerated_case(crate::framework::run_index(), tier) {
+            return c;
+        }
         let capacity = match rng.below(100) {
             0..=24 => 1,
             25..=49 => 2,
@@ -265,6 +324,9 @@ impl Scenario for Lru {
         let rt = super::paused_runtime();
         let keys: Vec<Key> = case.keys.iter().map(|s| parse_key(s)).collect();
         let has_zero = keys.iter().any(|k| *k == [0u8; 9]);
+        if case.keys.len() == 4 && case.keys[0] == "a00000000000000001" {
+            ctx.count("enumerated_histories");
+        }
         let dir = ctx.root.join("lru");
         std::fs::create_dir_all(&dir).ok()?;
         let mut lru = LruManager::new(case.capacity, dir.clone());
